@@ -305,14 +305,18 @@ func (m *monC16) checkQueries(t *Transition) []Violation {
 			}
 		}
 		for _, bd := range bidders {
-			for _, im := range []string{"", "true", "false"} {
+			// every spelling strconv.ParseBool accepts is a valid value of the is_matched field
+			for _, im := range []string{"", "true", "false", "1", "t", "T", "TRUE", "0", "f", "False"} {
 				var want [][]byte
 				for _, b := range s.Bids[a.ID] {
 					if bd != "" && b.Bidder != bd {
 						continue
 					}
-					if im != "" && fmt.Sprint(b.Matched) != im {
-						continue
+					if im != "" {
+						wantFlag := im == "true" || im == "1" || im == "t" || im == "T" || im == "TRUE"
+						if b.Matched != wantFlag {
+							continue
+						}
 					}
 					want = append(want, []byte(b.Raw))
 				}
